@@ -5,8 +5,9 @@
 (*   id, steps = the history TLC generated (create / add / pass / fire /      *)
 (*   resample / finish / stop / sinkfail / recover records), each extended    *)
 (*   with                                                                     *)
-(*     obs.rec   per series, the timestamps (ticks) its sink was handed so    *)
-(*               far by the real Resampler running on the virtual clock       *)
+(*     obs.rec   per series, the timestamps (exact integer microseconds since  *)
+(*               the harness's epoch) its sink was handed so far by the real  *)
+(*               Resampler running on the virtual clock                       *)
 (*     obs.jn    per series, how many timestamps series 1 had been handed     *)
 (*               when the series was added (None = not added yet)             *)
 (*     obs.lf    per series, how many timestamps series 1 had been handed     *)
@@ -68,7 +69,7 @@ Done == Say([tid |-> Tr.id, done |-> TRUE])
 TStep ==
     /\ l <= Len(Tr.steps)
     /\ LET r == Tr.steps[l] IN
-       /\ IF r.a = "create" THEN Create(r.c, r.align)
+       /\ IF r.a = "create" THEN Create(r.c, r.off, r.align)
           ELSE IF r.a = "add" THEN AddSeries(r.s)
           ELSE IF r.a = "pass" THEN TimePass
           ELSE IF r.a = "fire" THEN TimerFire
